@@ -1,6 +1,7 @@
 //! Conformance harness for the TLA+ specification of num-bigint.
 //!   harness record --driver D --seed S --tier quick|thorough --shard K --nshards N --out FILE [--only CASE]
 //!   harness probes   (print probe names)
+#![allow(irrefutable_let_patterns, dead_code, unused_imports, unused_variables, unused_macros)]
 mod drivers;
 mod gen;
 mod hint;
